@@ -36,6 +36,7 @@ Ops == {
   O("rec_new_sd", "TP", "Dur", "Rec"), O("rec_new_de", "TP", "Dur", "Rec"), O("rec_new_se", "TP", "TP", "Rec"), O("rec_new_win", "TP", "TP", "Rec"),
   O("tp_zone_offset", "TP", "TP", "Zone"),
   \* augmented assignment on an alias of the operand (x = a; x += b): must not write through to a
+  O("tp_oper_format", "TP", "-", "-"), O("ttp_sub_ttp", "TTP", "TTP", "Dur"), O("ttp_to_zone", "TTP", "Zone", "TTP"),
   O("dur_iadd", "Dur", "Dur", "Dur"), O("tp_iadd", "TP", "Dur", "TP"), O("dur_imul", "Dur", "-", "Dur"),
   O("rec_eq", "Rec", "Rec", "-"), O("rec_hash", "Rec", "-", "-"), O("rec_str", "Rec", "-", "-"), O("rec_anchors", "Rec", "-", "TP")}
 
